@@ -32,6 +32,35 @@ def tp_render(pa, pb):
             'q': (('tok', 'B'), [Term('B', (('str', 'a', ''),), pb)])}
 
 
+class LONG:
+    """Rules with three and four symbols: `start: S1 S2 S3 [S4]`, Si in {a, b, X}; a: X | c ; b: X | d ; c.P: X X ; d.Q: X X
+    (both orders of the alternatives of a and b; P, Q in {none, -1, 1, 2}).  The competing derivations differ in the split
+    point between *leading* symbols of the long rule (packed under an intermediate forest node) and in nothing but the
+    priorities of the rules used further down."""
+    PQ = (None, -1, 1, 2)
+
+    def __init__(self):
+        import itertools
+        self.items = [(syms, oa, ob, P, Q) for n in (3, 4) for syms in itertools.product('abX', repeat=n)
+                      if sum(s != 'X' for s in syms) >= 2
+                      for oa in (0, 1) for ob in (0, 1) for P in self.PQ for Q in self.PQ if (P, Q) != (None, None)]
+
+    def __len__(self):
+        return len(self.items)
+
+    def grammar(self, idx):
+        syms, oa, ob, P, Q = self.items[idx]
+        X = ('tok', 'X')
+        alts = lambda sub, o: tuple([((X,), None), ((('ref', sub),), None)][::-1 if o else 1])
+        rules = [Rule('start', '', None, ((tuple(X if s == 'X' else ('ref', s) for s in syms), None),)),
+                 Rule('a', '', None, alts('c', oa)), Rule('c', '', P, (((X, X), None),))]
+        if 'b' in syms:
+            rules += [Rule('b', '', None, alts('d', ob)), Rule('d', '', Q, (((X, X), None),))]
+        elif ob or Q is not None:
+            return None         # b unused: one representative
+        return Grammar(rules, [Term('X', (('str', 'x', ''),), 0)])
+
+
 def box(name):
     """x1/s<p>a<p>  : BNF(2,{x},2,2), priorities of start and a;  k3/a<p>b<p>;  tp/<pa><pb>a<p>: colliding terminals."""
     B = families.BNF
@@ -49,6 +78,8 @@ def box(name):
         helpers = [((families.X,),), ((families.X, ('maybe', ((families.Y,),))),), ((families.X, ('opt', families.Y)),), ((('maybe', ((families.X,),)), families.Y),)]
         return dict(fam=families.EBNF(1 if spec.endswith('/1') else 2, helpers=helpers, helper_prio=PRIOS[spec[1]], start_alts=(((('ref', 'b'),), None), ((('ref', 'b'), ('ref', 'b')), None))),
                     alpha='xy', lexers=('basic', 'dynamic'))
+    if base == 'long':
+        return dict(fam=LONG(), alpha='x', lexers=('basic', 'dynamic'))
     if base == 'tp':
         tprio = {'0': 0, '1': 1, 'm': -1}
         mods = {'a': ('', PRIOS[spec[3]])}
@@ -77,6 +108,8 @@ def _tiers():
         q.append(('eb/a%s/1' % a, 1, 3))    # one-item bodies: complete
         q.append(('eb/a%s' % a, 8, 3))
         t.append(('eb/a%s' % a, 1, 4))
+    q.append(('long', 2, 7))
+    t.append(('long', 1, 8))
     return {'quick': q, 'thorough': t}
 
 
